@@ -14,8 +14,7 @@ def seqnoTab : Array (BitVec 32) := #[0#32, 1#32, 2#32, 3#32, 0xFFFFFFFE#32, 0xF
 def connOfCode (id code : Nat) : Conn :=
   { id := id, alive := code / 18 == 1, seqno := seqnoTab[(code / 3) % 6]!, rtt := Int.ofNat (code % 3 + 1) }
 
-def stratOf (s : String) : Strategy :=
-  if s == "best-ping" then .bestPing else if s == "first-working" then .firstWorking else .other
+def stratOf (s : String) : Strategy := strategyOfName s
 
 def prevOf (cs : List Conn) (p : Int) : Option Conn := if p < 0 then none else cs[p.toNat]?
 
